@@ -190,9 +190,9 @@ func genRound(t *rapid.T, exists uint32) []*cmdSpec {
 	var cmds []*cmdSpec
 	used := map[string]bool{}
 	nextSeq := uint32(1)
-	n := rapid.IntRange(1, 4).Draw(t, "ncmds")
+	n := rapid.IntRange(1, 5).Draw(t, "ncmds")
 	for i := 0; i < n; i++ {
-		kind := rapid.SampledFrom([]string{"NOOP", "CAPABILITY", "STATUS", "STATUS", "LIST", "FETCH", "FETCH", "UIDFETCH", "STORE", "ESEARCH", "ESEARCH", "SEARCH", "APPEND", "ENABLE", "EXPUNGE"}).Draw(t, "kind")
+		kind := rapid.SampledFrom([]string{"NOOP", "LIST", "SEARCH", "CAPABILITY", "STATUS", "STATUS", "LIST", "FETCH", "FETCH", "UIDFETCH", "STORE", "ESEARCH", "ESEARCH", "SEARCH", "APPEND", "ENABLE", "EXPUNGE"}).Draw(t, "kind")
 		label := fmt.Sprintf("c%d", i)
 		c := &cmdSpec{kind: kind, out: genOutcome(t, label)}
 		switch kind {
@@ -210,7 +210,11 @@ func genRound(t *rapid.T, exists uint32) []*cmdSpec {
 				c.want = "status{}"
 			}
 		case "LIST", "SEARCH", "EXPUNGE", "UIDFETCH", "ENABLE", "CAPABILITY":
-			if used[kind] || (kind == "SEARCH" && used["ESEARCH"]) {
+			// LIST and SEARCH may be pipelined several times: their untagged
+			// data carries no correlator, so the scripted server answers those
+			// in the order they were sent (see round); everything else at most once
+			dupOK := (kind == "LIST" || kind == "SEARCH") && countKind(cmds, kind) < 3
+			if (used[kind] && !dupOK) || (kind == "SEARCH" && used["ESEARCH"]) {
 				continue
 			}
 			used[kind] = true
@@ -219,6 +223,9 @@ func genRound(t *rapid.T, exists uint32) []*cmdSpec {
 				var names []string
 				for j, k := 0, rapid.IntRange(0, 3).Draw(t, label+".nlist"); j < k; j++ {
 					nm := fmt.Sprintf("box%d", j)
+					if k := countKind(cmds, "LIST"); k > 0 {
+						nm = fmt.Sprintf("l%d-box%d", k, j)
+					}
 					names = append(names, nm)
 					c.data = append(c.data, fmt.Sprintf(`* LIST () "/" %s`, nm))
 				}
@@ -315,6 +322,37 @@ func genRound(t *rapid.T, exists uint32) []*cmdSpec {
 		cmds = append(cmds, c)
 	}
 	return cmds
+}
+
+func countKind(cmds []*cmdSpec, kind string) int {
+	n := 0
+	for _, c := range cmds {
+		if c.kind == kind {
+			n++
+		}
+	}
+	return n
+}
+
+// inOrderWithinKind rearranges an answer order so that commands whose data
+// carries no correlator (several LISTs, several SEARCHes) are answered in the
+// order in which they were sent; the positions they occupy stay the same.
+func inOrderWithinKind(cmds []*cmdSpec, order []int) []int {
+	out := append([]int(nil), order...)
+	for _, kind := range []string{"LIST", "SEARCH"} {
+		var pos, members []int
+		for p, ci := range out {
+			if cmds[ci].kind == kind {
+				pos = append(pos, p)
+				members = append(members, ci)
+			}
+		}
+		sort.Ints(members)
+		for i, p := range pos {
+			out[p] = members[i]
+		}
+	}
+	return out
 }
 
 // unsolicited update kinds that a conformant server may send at any time.
@@ -487,7 +525,7 @@ func parseSeq(s string) (imap.SeqSet, error) {
 func (r *run) round(t *rapid.T, idx int) (outOfOrder, sawUpdate bool) {
 	cmds := genRound(t, r.m.exists)
 	// answer order: a permutation of the commands
-	order := rapid.Permutation(indices(len(cmds))).Draw(t, "order")
+	order := inOrderWithinKind(cmds, rapid.Permutation(indices(len(cmds))).Draw(t, "order"))
 	// a refused APPEND is necessarily answered when its literal header arrives
 	// the plan: per answered command, updates before its data and the data lines
 	type step struct {
